@@ -48,6 +48,7 @@ package trie
 //@   let N := len(old(b))
 //@   ensures @C15 chain(heaphas(t.m), heapval(t.m), t, B, O, N)
 //@   ensures @C15 forall x int, c int :: {H0[x][c]} 0 < x && x <= A0 && H0[x][c] ==> heaphas(t.m)[x][c] && heapval(t.m)[x][c] == V0[x][c]
+//@   ensures @C15 tree(H0, V0, A0, t) ==> tree(heaphas(t.m), heapval(t.m), alloc, t)
 //@   ensures alloc >= A0 && closed(heaphas(t.m), heapval(t.m), alloc)
 //@   ensures forall x ref :: x != nil ==> !isnil(x.m)
 //@   ensures forall x ref, k int :: has(x.m, k) ==> x.m[k] != nil
@@ -60,6 +61,7 @@ package trie
 //@     invariant @C15 rawarr(b) == B && offset(b) == O + i && mark(O) && mark(O + i) && mark(i)
 //@     invariant @C15 forall x int, c int :: {H0[x][c]} 0 < x && x <= A0 && H0[x][c] ==> heaphas(t.m)[x][c] && heapval(t.m)[x][c] == V0[x][c]
 //@     invariant @C15 chain(heaphas(t.m), heapval(t.m), t, B, O, i) && walk(heaphas(t.m), heapval(t.m), t, B, O, i) == cur
+//@     invariant @C15 tree(H0, V0, A0, t) ==> tree(heaphas(t.m), heapval(t.m), alloc, t)
 //@     decreases len(b)
 
 //@ func Trie.Delete
@@ -90,6 +92,9 @@ package trie
 //@   ensures @C15 result ==> forall y int, c int :: {H0[y][c]} 0 < y && y <= A0 && H0[y][c] && !H1[y][c] ==>
 //@             exists i int :: 0 <= i && i < N && y == walk(H0, V0, t, B, O, i) && c == B[O + i] &&
 //@               forall i2 int, c2 int :: {H1[walk(H0, V0, t, B, O, i2)][c2]} i < i2 && i2 < N ==> !H1[walk(H0, V0, t, B, O, i2)][c2]
+//@   ensures @C15 !result ==> H1 == H0 && V1 == V0
+//@   ensures @C15 result ==> prunedOnly(H0, V0, H1, A0, t, B, O, N)
+//@   ensures @C15 tree(H0, V0, A0, t) ==> tree(H1, V1, alloc, t)
 //@   ensures alloc == A0 && closed(H1, V1, alloc)
 //@   ensures forall x ref :: x != nil ==> !isnil(x.m)
 //@   ensures forall x ref, k int :: has(x.m, k) ==> x.m[k] != nil
